@@ -24,13 +24,16 @@ class C17(core.Check):
                   "CR/LF/colon-free names and CR/LF-free values within the header limits), decoded_body, decoded_trailers (names distinct ignoring case come back as written), "
                   "bad_size_rejected + bad_size_never_a_chunk (every size line whose token is not 1*HEX after white-space stripping is the error, no chunk is produced, never another "
                   "number), good_size_value, named_bad_sizes (-5 +5 0x5 1_0 empty blank superscript-two), chunk_fragmentation_independent.  Tied to the code by the correspondence run; "
-                  "packChunk by the oracle (parseChunk of packChunk output).")
+                  "the encode side is modelled too: pack_parse_roundtrip (parseChunk of packChunk of every non-empty piece of ANY length + packChunk(b'') = one chunk per piece, the last chunk, "
+                  "tail untouched), pack_parse_body, size_constants_pinned (the module's size constants, regenerated: a new limit breaks this obligation and moves the generators' boundary "
+                  "sizes); the model's packAll output is compared byte for byte with httping.packChunk's, and serving.Responder -> clienting.Respondent is run on the same pieces.")
     level_note = "Trusted: Lean kernel; translator (hexDigits / bytesSpace probes, MAX_* constants); sampled correspondence."
     quick_n = 900
     thorough_n = 40000
     rule = ("cases: (enc) body with CR/LF-heavy bytes x chunk sizes x per-chunk extension text x trailers, decoded by parseChunk under a seeded partition; "
             "(chunks) a table of malformed size tokens (sign, 0x, _, unicode digits, blanks, empty) and random near-hex tokens with/without extensions, and mutated encodings; "
-            "(pack) packChunk output for random payloads; non-trivial = at least one chunk or an error decided; distinct by request line")
+            "(pack) packChunk of piece lists and (wsgi) serving.Responder writing the pieces an application yields, decoded by parseChunk / Respondent, piece sizes random and at/around every "
+            "size constant of the module and its multiples (read from the module); non-trivial = at least one chunk or an error decided; distinct by request line")
     trusted_base = ["translator harness/extract/httpparse.py", "correspondence harness/props/C17.py vs httping.parseChunk",
                     "oracle encodes with its own encoder / httping.packChunk and compares the decoded body, parameters and trailers"]
     assumptions = []
@@ -45,6 +48,27 @@ class C17(core.Check):
                ("enc", b"a\r\nb\r\n\r\n0\r\n\r\n", (1, 4), (b";x", b" ; y = 2"), ((b"T", b"v"), (b"U", b"w w")), ()),
                ("enc", b"", (), (), (), ()), ("enc", b"x" * 300, (255, 16), (), (), (5, 6, 7)),
                ("pack", (b"hello", b"\r\n", b"x" * 26), (4, 9)), ("pack", (), ())]
+        cs += self._boundary_cases(None, big=False)
+        return cs
+
+    def _boundary_cases(self, rng, big):
+        """pieces at and around every size constant of the module (and small multiples), alone, between small pieces,
+        twice in a row, and as the last piece — through packChunk/parseChunk and through Responder/Respondent"""
+        import random
+        rng = rng or random.Random(17)
+        cs = []
+        sizes = [n for n in hp.boundary_sizes(limit=(1 << 21) if big else 140000) if n >= 4095]
+        for n in sizes:
+            p = hp.piece_of(rng, n)
+            lists = [(p,), (b"ab", p, b"cd")]
+            if n <= 70000:
+                lists += [(p, p), (b"\r\n", p)]
+            for ps in lists:
+                for kind in ("pack", "wsgi"):
+                    case = (kind, ps, ())
+                    d = hp.case_data(case)
+                    cuts = () if rng.random() < 0.5 else tuple(sorted({rng.randrange(1, len(d)) for _ in range(3)}))
+                    cs.append((kind, ps, cuts))
         return cs
 
     def generate(self, rng, n, tier):
@@ -60,9 +84,17 @@ class C17(core.Check):
                 w, _ = hp.enc_wire(body, sizes, exts, trailers)
                 yield ("enc", body, sizes, exts, trailers, hp.cuts_for(rng, w))
             elif k < 0.6:    # packChunk's own output, several chunks then the terminator
-                ps = tuple(hp.rand_body(rng, rng.choice([1, 2, 9, 10, 15, 16, 17, 255, 256, rng.randrange(1, 300)])) for _ in range(rng.randrange(0, 4)))
-                case = ("pack", ps, ())
-                yield ("pack", ps, hp.cuts_for(rng, hp.case_data(case)))
+                small = [n for n in hp.boundary_sizes() if 0 < n <= 4097]
+                bigs = [n for n in hp.boundary_sizes() if n > 4097]
+                def size():
+                    r = rng.random()
+                    if r < 0.04 and bigs:
+                        return rng.choice(bigs)
+                    return rng.choice(small) if r < 0.5 else rng.randrange(1, 300)
+                ps = tuple(hp.piece_of(rng, size()) for _ in range(rng.randrange(0, 4)))
+                kind = "pack" if rng.random() < 0.6 else "wsgi"
+                d = hp.case_data((kind, ps, ()))
+                yield (kind, ps, hp.cuts_for(rng, d, None if len(d) < 3000 else rng.choice(["none", "two", "uniform", "tail"])))
             elif k < 0.85:   # size token table / near-hex tokens
                 tok = rng.choice(BADSIZES) if rng.random() < 0.5 else bytes(rng.choice(b"0123456789abcdefABCDEFxX_+- \t") for _ in range(rng.randrange(1, 5)))
                 ext = rng.choice([b"", b"", b";a=b", b" ;x"])
@@ -80,8 +112,9 @@ class C17(core.Check):
         alpha = b"05aAfFgx_+- "
         cs = [("chunks", bytes([a, b]) + b"\r\nabcdefghijklmnop\r\n0\r\n\r\n", ()) for a in alpha for b in alpha]
         cs += [("chunks", bytes([a]) + b"\r\nabcdefghijklmnop\r\n0\r\n\r\n", ()) for a in range(256)]
+        cs += self._boundary_cases(None, big=True)
         cs += [("chunks", b"1" + bytes([c]) + b";" + bytes([c]) + b"a" + bytes([c]) + b"=" + bytes([c]) + b"b" + bytes([c]) + b"\r\nX\r\n0\r\n\r\n", ()) for c in range(256) if c not in (10, 13)]
-        return cs, "every 1-byte size token, every 2-byte size token over the alphabet 05aAfFgx_+-<space>, every byte value around size / extension name / value"
+        return cs, "every 1-byte size token, every 2-byte size token over the alphabet 05aAfFgx_+-<space>, every byte value around size / extension name / value; pieces at k*c-1, k*c, k*c+1 (k=1..3) for every size constant c of the module, packed and through the WSGI responder"
 
     def request(self, case):
         return hp.request_of(case)
@@ -94,10 +127,12 @@ class C17(core.Check):
 
     def oracle(self, case, obs):
         bad = []
-        cut, whole = obs
+        if case[0] == "wsgi":
+            return self._oracle_wsgi(case, obs)
+        cut, whole = obs[-2], obs[-1]
         if cut != whole:
             bad.append("fragmented-differs-from-whole")
-        if hp.has_escape(obs):
+        if hp.has_escape((cut, whole)):
             bad.append("exception-escaped")
         out, status = cut
         if case[0] == "enc":
@@ -115,10 +150,17 @@ class C17(core.Check):
                 if status[1] != b"":
                     bad.append("leftover-after-last-chunk")
         elif case[0] == "pack":
-            if status != ("done", b""):
+            # decode(packChunk(p1) ... packChunk(pn) packChunk(b"")) = the concatenated body, ended by the one last chunk,
+            # nothing left over (how many chunks a piece becomes is the encoder's business)
+            if status[0] != "done":
                 bad.append("packed-chunks-not-decoded")
-            elif [r[3] for r in out] != list(case[1]) + [b""] or [r[0] for r in out] != [len(x) for x in case[1]] + [0]:
-                bad.append("decoded-body-differs")
+            else:
+                if b"".join(r[3] for r in out) != b"".join(case[1]):
+                    bad.append("decoded-body-differs")
+                if status[1] != b"":
+                    bad.append("leftover-after-last-chunk")
+                if any(r[0] != len(r[3]) for r in out) or out[-1][0] != 0 or any(r[0] == 0 for r in out[:-1]):
+                    bad.append("chunk-sizes-differ")
         else:
             data = case[1]
             i = data.find(b"\r\n")
@@ -135,11 +177,52 @@ class C17(core.Check):
                         bad.append("good-size-rejected")
         return bad
 
+    def _oracle_wsgi(self, case, obs):
+        """Responder's chunked framing of the pieces an application yields, decoded by Respondent: one response, the body
+        is the concatenation, nothing of it left on the connection"""
+        bad = []
+        cut, whole = obs
+        if cut != whole:
+            bad.append("fragmented-differs-from-whole")
+        if hp.has_escape(obs):
+            bad.append("exception-escaped")
+        msgs, tail, _ = cut
+        body = b"".join(case[1])
+        if len(msgs) != 1 or msgs[0][0] != "ok":
+            bad.append("wsgi-response-not-decoded")
+        else:
+            if msgs[0][5] != body:
+                bad.append("decoded-body-differs")
+            if not msgs[0][9]:
+                bad.append("response-not-chunked")
+        if tail != ("more", b""):
+            bad.append("leftover-after-last-chunk")
+        return bad
+
     def nontrivial(self, case, obs):
-        return len(obs[0][0]) >= 1 or obs[0][1][0] == "err"
+        if case[0] == "wsgi":
+            return len(obs[0][0]) >= 1
+        return len(obs[-2][0]) >= 1 or obs[-2][1][0] == "err"
 
     def features(self, case, obs):
-        out, status = obs[0]
+        if case[0] == "wsgi":
+            return ["wsgi", f"pieces:{min(len(case[1]), 4)}"] + [f"piece-size:{self._bucket(len(p))}" for p in case[1]]
+        if case[0] == "pack":
+            extra = [f"piece-size:{self._bucket(len(p))}" for p in case[1]]
+        else:
+            extra = []
+        return extra + self._features(case, obs[-2])
+
+    @staticmethod
+    def _bucket(n):
+        for _, c in hp.size_constants():
+            for k in (1, 2, 3):
+                if abs(n - k * c) <= 1:
+                    return f"{k}x{c}{'%+d' % (n - k * c) if n != k * c else ''}"
+        return "0" if n == 0 else "<256" if n < 256 else "<64k" if n < 65535 else "big"
+
+    def _features(self, case, part):
+        out, status = part
         f = [case[0], "status:" + status[0] + (":" + status[1] if status[0] == "err" else ""), f"chunks:{min(len(out), 4)}"]
         if any(r[1] for r in out):
             f.append("extensions")
